@@ -13,7 +13,7 @@ def run(tier, seed, t0):
     if not okh:
         raise RuntimeError("harness build failed:\n" + outh[-3000:])
     n = 25 if tier == "quick" else 250
-    rows = L.run_stream("framed", seed, n)
+    rows = L.run_stream("framed", seed, n, prop=PROP)
     distinct = set()
     for sess, obs, ref in rows:
         bad = L.framed_oracle(sess, obs, ref)
